@@ -87,7 +87,7 @@ func c11WideRule(rt *rapid.T, label string, pool []string, allowX2 bool) c11Rule
 }
 
 func c11WideCase(rt *rapid.T) (c11Case, int) {
-	keys := c11WideKeys("k", 16)     // candidate members (access keys)
+	keys := c11WideKeys("k", 16)      // candidate members (access keys)
 	outsiders := c11WideKeys("o", 16) // never members
 	root := rapid.SampledFrom([]string{"acc", "acc", "method"}).Draw(rt, "root")
 	rules := map[string]c11Rule{}
